@@ -2,7 +2,7 @@
    REGENERATED tables: 64 squares, 64x64 pairs, 2 colours); between/line empty for non-aligned pairs;
    generator helper functions agree. *)
 From Coq Require Import NArith List Bool.
-From Chess Require Import base.Bits base.Types base.BitBoard geom.Geometry geom.Lookup geom.GenFns proofs.GeomSweeps.
+From Chess Require Import base.Bits base.Types base.BitBoard geom.Geometry geom.Lookup geom.GenFns proofs.GeomSweeps proofs.PawnFacts.
 Local Open Scope N_scope.
 
 Theorem C09_knight : forall s, s < 64 -> lk_knight s = knight_geo s.
@@ -55,3 +55,14 @@ Print Assumptions C09_rank_constants.
 Theorem C09_generator_helpers : forall s, s < 64 -> chk_gen s = true.
 Proof. exact gen_helpers_geo. Qed.
 Print Assumptions C09_generator_helpers.
+
+(* occupancy-dependent pawn helpers: for EVERY occupancy *)
+Theorem C09_pawn_quiets_all_occ : forall s c occ, s < 64 -> lk_pawn_quiets s c occ = pawn_quiets_spec c s occ.
+Proof. exact lk_pawn_quiets_spec_all. Qed.
+Print Assumptions C09_pawn_quiets_all_occ.
+Theorem C09_pawn_attacks_all_occ : forall s c occ, s < 64 -> lk_pawn_attacks s c occ = pawn_attacks_spec c s occ.
+Proof. exact lk_pawn_attacks_spec_all. Qed.
+Print Assumptions C09_pawn_attacks_all_occ.
+Theorem C09_pawn_moves_all_occ : forall s c occ, s < 64 -> lk_pawn_moves s c occ = pawn_moves_spec c s occ.
+Proof. exact lk_pawn_moves_spec_all. Qed.
+Print Assumptions C09_pawn_moves_all_occ.
